@@ -36,6 +36,8 @@ MISUSE = [
     ("concrete-in-module-cfg-fn", "Foo", ["pub mod m { #[cfg(all())] pub fn a(deps:", "&u32", ") {} }"], "Using concrete dependencies in a module is an anti-pattern", 1),
     ("concrete-in-module-later-cfg-fn", "Foo", ["pub mod m { pub fn a(deps: &impl ::core::any::Any) {} #[cfg(all())] #[inline] pub fn b(deps:", "&u32", ") {} }"], "Using concrete dependencies in a module is an anti-pattern", 1),
     ("concrete-in-impl-cfg-fn", "", ["impl TrImpl for X { #[cfg(all())] fn a(deps:", "&u32", ") {} }"], "Cannot (yet) use concrete dependency in an impl block", 1),
+    ("generic-name-clash-in-module", "Foo", ["pub mod m { pub fn a<T: Copy>(deps: &impl ::core::any::Any, t: T) {} pub fn b<", "T: Clone", ">(deps: &impl ::core::any::Any, t: T) {} }"], "another function has already declared a different parameter with this name", 1),
+    ("generic-name-clash-in-impl", "", ["impl TrImpl for X { fn a<const N: usize>(deps: &impl ::core::any::Any) {} fn b<", "const N: u8", ">(deps: &impl ::core::any::Any) {} }"], "another function has already declared a different parameter with this name", 1),
     ("missing-deps-in-module-later-fn", "Foo", ["pub mod m { pub fn a(deps: &impl ::core::any::Any) {} pub fn", "b", "() {} }"], MSG_DEPS, 1),
     ("self-receiver-in-impl-later-fn", "", ["impl TrImpl for X { fn a(deps: &impl ::core::any::Any) {} fn b(", "&self", ") {} }"], "Function cannot have a self receiver", 1),
     ("unknown-option-after-valid-ones", "Foo, no_deps, export = false, mock_api = M,\nbogus", ["pub fn f(deps: &()) {}"], 'Unkonwn entrait option "bogus"', -1),
